@@ -72,6 +72,12 @@ type Atom struct {
 	Type    string // xsd local name
 	Other   Path
 }
+// Rego is an embedded-Rego constraint (no reference semantics: used for equivalence checks only).
+type Rego struct {
+	Code    string
+	Message string
+}
+
 type Not struct{ F Formula }
 type And struct{ Fs []Formula }
 type Or struct{ Fs []Formula }
@@ -106,6 +112,8 @@ func Describe(f Formula) string {
 			arg = PathString(x.Other)
 		}
 		return fmt.Sprintf("%s(%s,%s)", x.Kind, PathString(x.Path), arg)
+	case Rego:
+		return fmt.Sprintf("rego(%q)", x.Code)
 	case Not:
 		return "not(" + Describe(x.F) + ")"
 	case And:
